@@ -806,6 +806,10 @@ func judge(c Case) {
 				judgeWireServer(x, c.Bits)
 			}
 		})
+	case "sig-neighbour":
+		old := user.VerifSetMojangKey(&fam.other.PublicKey)
+		judgeNeighbours(c.SigLen)
+		user.VerifSetMojangKey(old)
 	case "sig-history":
 		old := user.VerifSetMojangKey(&fam.other.PublicKey)
 		if !hm.ready && !initHist(old) {
